@@ -256,3 +256,7 @@ mod tests {
         );
     }
 }
+
+#[cfg(any(kani, verif_replay))]
+#[path = "/verif/kani/base38.rs"]
+pub(crate) mod verif_kani_base38;
